@@ -250,7 +250,7 @@ def m_ioerr_into(ex, c, a, m):
     return ex.run_fn(ex.resolve('<VfsError as From<std::io::Error>>::from', a), a)
 
 
-@model(r'(Result|Option)::<.*?>::(map_err|map|ok_or|ok_or_else|unwrap_or|unwrap_or_default|unwrap_or_else|is_some|is_none|is_ok|is_err|ok|err|and_then|as_ref|as_mut|take|cloned|copied|as_deref|or_else|map_or|is_some_and)(::<.*>)?')
+@model(r'(Result|Option)::<.*?>::(map_err|map|ok_or|ok_or_else|unwrap_or|unwrap_or_default|unwrap_or_else|is_some|is_none|is_ok|is_err|ok|err|and_then|as_ref|as_mut|take|cloned|copied|as_deref|or_else|map_or|is_some_and|or|and|iter|into_iter|flatten|filter|is_ok_and|is_err_and)(::<.*>)?')
 def m_combinators(ex, c, a, m):
     k, op = m.group(1), m.group(2)
     v = d(a[0])
@@ -283,6 +283,20 @@ def m_combinators(ex, c, a, m):
         return ex.call_closure(a[2], [v.fields[0]]) if g else a[1]
     if op == 'is_some_and':
         return ex.call_closure(a[1], [v.fields[0]]) if g else False
+    if op == 'or':
+        return v if g else a[1]
+    if op == 'and':
+        return a[1] if g else v
+    if op in ('iter', 'into_iter'):
+        return PyIter([v.fields[0]] if g else [])
+    if op == 'flatten':
+        return v.fields[0] if g else (NONE() if k == 'Option' else v)
+    if op == 'filter':
+        return v if g and ex.branch(ex.call_closure(a[1], [ValRef(v.fields[0])])) else NONE()
+    if op in ('is_ok_and',):
+        return ex.call_closure(a[1], [v.fields[0]]) if g else False
+    if op in ('is_err_and',):
+        return ex.call_closure(a[1], [v.fields[0]]) if not g else False
     if op in ('is_some', 'is_ok'):
         return g
     if op in ('is_none', 'is_err'):
@@ -739,6 +753,8 @@ def m_replace(ex, c, a, m):
             a[0].set(NONE())
         elif isinstance(old, Cursor):
             a[0].set(Cursor(S()))
+        elif isinstance(old, ArcObj) and type(old.cell[0]) is S:
+            a[0].set(ArcObj(S(), 'arc'))
         else:
             raise Unmodelled('mem::take of %r' % (old,))
     else:
@@ -822,6 +838,8 @@ def m_iter_next(ex, c, a, m):
 def m_into_iter(ex, c, a, m):
     v = a[0]
     dv = d(v)
+    if type(dv) is Adt and dv.name in ('Result', 'Option'):
+        return PyIter([dv.fields[0]] if good(dv) else [])
     if isinstance(dv, SymMap):
         order = ex.hooks.get('map_order')
         items = list(dv.items)
@@ -883,6 +901,23 @@ def m_collect(ex, c, a, m):
 @model(r'.* as Iterator>::(count|last|any|all|for_each|find|position|fold|chain|enumerate|rev|skip|take|zip|peekable|cloned|copied|flatten|flat_map|nth|sum|max|min)(::<.*>)?')
 def m_iter_misc(ex, c, a, m):
     op = m.group(1)
+    if op == 'flatten':
+        out = []
+        for x in drain(ex, a[0]):
+            dx = d(x)
+            if type(dx) is Adt and dx.name in ('Result', 'Option'):
+                if good(dx):
+                    out.append(dx.fields[0])
+            else:
+                out += drain(ex, x)
+        return PyIter(out)
+    if op == 'flat_map':
+        out = []
+        for x in drain(ex, a[0]):
+            out += drain(ex, ex.call_closure(a[1], [x]))
+        return PyIter(out)
+    if op == 'chain':
+        return PyIter(drain(ex, a[0]) + drain(ex, a[1]))
     if op == 'count':
         return len(drain(ex, a[0]))
     if op == 'last':
@@ -1723,3 +1758,32 @@ def m_str_replace(ex, c, a, m):
 @model(r'std::io::_print|std::io::_eprint')
 def m_print(ex, c, a, m):
     return UNIT
+
+
+@model(r'Arc::<.+>::(try_unwrap|into_inner|unwrap_or_clone)')
+def m_arc_try_unwrap(ex, c, a, m):
+    # reference counts are not tracked: the Arc is assumed to be unique (stated in the evidence when used)
+    arc = d(a[0])
+    v = arc.cell[0]
+    if m.group(1) == 'try_unwrap':
+        return Ok(v)
+    if m.group(1) == 'into_inner':
+        return Some(v)
+    return v
+
+
+@model(r'<.+ as Extend<.+>>::extend::<.+>|HashSet::<.+>::extend::<.+>|Vec::<.+>::extend::<.+>')
+def m_extend(ex, c, a, m):
+    tgt = d(a[0])
+    items = drain(ex, a[1])
+    if isinstance(tgt, SymMap):
+        for x in items:
+            if type(x) is Adt and x.name == 'tuple':
+                _map_insert(ex, tgt, as_S(x.fields[0]), x.fields[1])
+            else:
+                _map_insert(ex, tgt, as_S(x), True)
+        return UNIT
+    if type(tgt) is list:
+        tgt.extend(items)
+        return UNIT
+    raise Unmodelled('extend on %r' % (tgt,))
